@@ -2,7 +2,7 @@
    Statements only; the proofs are in Proofs/Skeleton.v and Proofs/HostCmd.v.
    Gen/C03Skeleton.v is regenerated from bumble/controller.py and bumble/hci.py on every run. *)
 From Coq Require Import ZArith List Bool.
-From BV Require Import Model.Skeleton Model.HostCmd Model.HostShape Model.CtrlProc Model.CtrlProcShape Model.CisProc Proofs.Skeleton Proofs.HostCmd Proofs.CtrlProc Proofs.CisProc Gen.C03Skeleton Gen.C03HostShape Gen.C03ProcShape.
+From BV Require Import Model.Skeleton Model.HostCmd Model.HostShape Model.CtrlProc Model.CtrlProcShape Model.CisProc Model.SyncCalls Proofs.Skeleton Proofs.HostCmd Proofs.CtrlProc Proofs.CisProc Gen.C03Skeleton Gen.C03HostShape Gen.C03ProcShape Gen.C03SyncCalls.
 Import ListNotations.
 Open Scope Z_scope.
 
@@ -37,6 +37,20 @@ Theorem C03_ctrl_credits : forall cc,
   label_ok (CtrlReply cc (if cc then C03Skeleton.complete_credit else C03Skeleton.status_credit)) = true.
 Proof. intros [|]; vm_compute; reflexivity. Qed.
 Print Assumptions C03_ctrl_credits.
+
+(* per-run obligation: no helper of controller.py / link.py that a handler calls SYNCHRONOUSLY
+   (transitively; deferred callbacks are not followed) contains an assert / raise / next() without
+   default, except the reviewed pairs of Model/SyncCalls.v.  [wf_ctrl] looks at the handlers' own
+   statements only; this closes it for the helpers: a deferred call turned synchronous, or an assert
+   added to a reachable helper, is a broken obligation. *)
+Theorem C03_no_unreviewed_sync_escape : unreviewed C03SyncCalls.sync_calls = [].
+Proof. vm_compute. reflexivity. Qed.
+Print Assumptions C03_no_unreviewed_sync_escape.
+
+Example C03_sync_calls_nonvacuous :
+  Nat.leb 90 (length C03SyncCalls.sync_calls) = true /\
+  existsb (fun row => existsb (fun hp => snd hp) (snd row)) C03SyncCalls.sync_calls = true.
+Proof. vm_compute. auto. Qed.
 
 (* the check is not vacuous: the dispatch of the unrepaired tree is rejected, with the
    paths that lose the reply (D03a/b: no handler, non-synchronous; D03c: early return) *)
